@@ -79,6 +79,22 @@ class Cmp(object):
         return key_eq(a.key(), b.key())
 
     # -- nodes
+    def count_is_multiple(self, n, per):
+        """is the number of values n known to be a whole multiple of per - because it is a constant, or because the evaluated
+        code has refused (raised) on `n % per != 0` before it got here (a standing condition of the evaluation)"""
+        c = n.as_const()
+        if c is not None:
+            return c % per == 0
+        for cond, val in list(getattr(self.I, "sticky_conds", [])) + list(getattr(self.I, "path_conds", [])):
+            if getattr(cond, "kind", None) != "cmp" or len(cond.args) != 3:
+                continue
+            op, x, y = cond.args
+            if not (isinstance(x, Num) and isinstance(y, Num) and y.rf.is_zero()):
+                continue
+            if ep.equal(x.rf, ep.app("mod", [n, ep.const(per)]))[0] and ((op == "!=" and val is False) or (op == "==" and val is True)):
+                return True
+        return False
+
     def nodes(self, a, b, where="out"):
         pa, pb = parts_of(a), parts_of(b)
         pa, pb = self.split_lits(pa, pb)
@@ -204,6 +220,8 @@ class Cmp(object):
                 self.diff(where, "number of tabulated values differs: found %r expect %r" % (a.hi - a.lo, b.hi - b.lo))
             for attr in ("per", "sep", "end", "flush"):
                 if getattr(a, attr) != getattr(b, attr):
+                    if attr == "flush" and a.per == b.per and self.count_is_multiple(a.hi - a.lo, a.per):
+                        continue         # no incomplete last row exists: emitting or dropping it is the same text
                     self.diff(where, "row layout differs (%s): found %r expect %r" % (attr, getattr(a, attr), getattr(b, attr)))
             if getattr(a, "prefix", "") != getattr(b, "prefix", ""):
                 self.diff(where, "row prefix differs: found %r expect %r" % (getattr(a, "prefix", ""), getattr(b, "prefix", "")))
